@@ -240,9 +240,12 @@ def run(ctx):
         for ref in (False, True):
             conds.append(xh.Cond(f"bill_of_materials two_files={two} licenseref={ref}", "C18.py", "_bom", {"two": two, "with_ref": ref}, timeout=tmo, twin="_bom_reach"))
 
+    conds.append(xh.Cond("aggregation: two covered files stay two File sections whether or not their contents (checksums) coincide", "C18.py", "_agg", {}, timeout=tmo, twin="_agg_reach"))
     conds.append(xh.Cond("FileChecksum: the chunked read hashes exactly the file's bytes (sizes around the 8192-byte chunk)", "C18.py", "_sha", {}, timeout=tmo, twin="_sha_reach"))
 
     def confirm(c, ex):
+        if c.func == "_agg":
+            return f"agg:{ex['story'][:50]}", f"{ex['story']} (names={ex['names']}, same checksum={ex['same_checksum']}, checksums computed={ex['with_checksum']})", {"harness": "C18.py::_agg", "explain": ex}
         if c.func == "_sha":
             return f"sha1:size{ex['size']}", f"_checksum of a {ex['size']}-byte file is {ex['got']}, its SHA-1 is {ex['sha1']}", {"harness": "C18.py::_sha", "explain": ex}
         return f"bom:{ex['story'][:50]}", f"{ex['story']} for names={ex['names']} copyright={ex['copyright']!r} person={ex['person']!r}", {"harness": "C18.py::_bom", "explain": {k: v for k, v in ex.items() if k != "document"}}
@@ -251,12 +254,13 @@ def run(ctx):
     ctx.functions_encoded = [
         "reuse.report.FileReport.generate (license_concluded = parse(' AND '.join(...)).simplify().render(); spdx_id) - executed, its output string translated to a z3 Bool term",
         "reuse.report.ProjectReport.bill_of_materials, format_creator (XH)",
+        "reuse.report.FileReport.__hash__ / equality as used by ProjectReport.file_reports (a set) - two reports, checksums equal or not, computed or not (XH)",
     ]
     ctx.bounds = {
         "LicenseConcluded": f"expression trees over {atoms} (incl. 'X+' and 'X WITH E' as atoms): all trees of depth <= 2 as single expressions, all pairs of depth <= 1, sampled triples" + ("; plus 4000 random depth-3 trees over 5 symbols" if tier == "thorough" else ""),
         "document": "1-2 files, names from 7 shapes (blank, non-ASCII, ': ', tag-like), copyright from 5 shapes (multi-line, 'NONE', tag-like), 5 licence lists, 5 creator forms, LicenseRef present or not",
     }
-    ctx.stubs = ["uuid4 and datetime.now fixed", "Path(...).open() of the LicenseRef text replaced by an in-memory text", "project.reuse_info_of returns the chosen expressions"]
+    ctx.stubs = ["uuid4 and datetime.now fixed", "pathlib.Path in reuse.report replaced by a model in which only /proj/LICENSES/LicenseRef-x.txt exists (the working directory is not the root)", "project.reuse_info_of returns the chosen expressions"]
     ctx.outside = [
         "SHA-1 / MD5 themselves (hashlib's contract); the chunked read around them IS checked, on 12 file sizes around the chunk boundaries chosen by the solver",
         "which files are covered (C03) and what is attributed to them (C02/C04)",
